@@ -42,7 +42,10 @@ def synset_probability(synset: Synset, freq: Freq) -> float:
     through :func:`information_content`.
 
     """
-    pos_freq = freq[synset.pos]
+    pos = synset.pos
+    if pos == ADJ_SAT:
+        pos = ADJ  # weights for satellite adjectives are kept under ADJ
+    pos_freq = freq[pos]
     return pos_freq[synset.id] / pos_freq[None]
 
 
